@@ -333,7 +333,7 @@ def run(prop, tier, seed):
             else:
                 items += list(scc_scenarios(fl, 3, 5))
                 items += list(scc_scenarios(fl, 4, 4))
-                items += list(scc_history_scenarios(fl, 3, 3))
+                items += list(scc_history_scenarios(fl, 3, 2))      # every iteration order of two scc() calls: 3 edges do not finish in 90 min
                 from nodeops import simple_sequences
                 for seq in simple_sequences(5, 5):
                     nodes = [[i, 100 + i] for i in range(5)]
@@ -344,7 +344,7 @@ def run(prop, tier, seed):
             prop, tier, seed, items, evaluate_c11, sig_c11,
             bounds={'members': '3 (<=4 edges) and 4 (<=4 edges, no parallel edges)' if tier == 'quick' else '3 (<=5 edges), 4 (<=4 edges), 5 (exactly 5 edges, simple digraphs)', 'max_edges': 4 if tier == 'quick' else 5,
                     'free_choices': 'the order in which the hash map yields its members at every next() (subsumes insertion order)',
-                    'second_call': 'scc(); one connect / disconnect / isolate through node handles; scc() again on the same container (3 members, <=%d edges before)' % (2 if tier == 'quick' else 3),
+                    'second_call': 'scc(); one connect / disconnect / isolate through node handles; scc() again on the same container (3 members, <=%d edges before)' % 2,
                     'outside': 'larger graphs; neighbours that are not members'},
             assumptions=['AHashMap/AHashSet modelled as association lists with free iteration order', 'std models of engine A',
                          'oracle: mutual reachability on the out-lists read back through iter_out'],
